@@ -281,6 +281,24 @@ def dag_spec(draw, max_stages: int = 6, allow: tuple[str, ...] = ("multi", "fail
     return {"name": "gen", "stages": stages}
 
 
+@st.composite
+def syn_confluent_spec(draw, allow_fail: bool = True) -> dict[str, Any]:
+    """a -> p -> z where p carries 0-3 succeeding before / after children (parallel or sequential, created by the stage's
+    builder or declared with the workflow), optionally a failing own task with on-failure children.  Confluent: no
+    unrelated stage runs beside a failure, so every delivery order must give the FIFO outcome."""
+    nb, na, pre = draw(st.integers(0, 3)), draw(st.integers(0, 3)), draw(st.booleans())
+    fail = allow_fail and draw(st.integers(0, 3)) == 0
+    syn: dict[str, Any] = {"before": ["ok"] * nb, "after": ["ok"] * na, "parallel": draw(st.booleans()), "pre": pre}
+    if not pre:
+        syn["onfail"] = ["ok"] * draw(st.integers(0, 2))
+    if not (nb or na or syn.get("onfail")):
+        syn["before"] = ["ok"]
+    p = stage("p", ["a"], [{"b": "fail"}] if fail else [ok(emit("k_p"))] * draw(st.integers(1, 2)), syn=syn)
+    if fail and draw(st.booleans()):
+        p["cof"] = True
+    return {"name": "synconf", "stages": [stage("a", [], [ok(emit("k_a"))]), p, stage("z", ["p"], [ok()])]}
+
+
 LOOP_SHAPES = ["self", "cycle2", "cycle3", "cycle4", "side", "fwd", "unknown", "two_routers", "mid_target", "nested"]
 
 
